@@ -43,7 +43,10 @@ def model_validate(wd, trace_path, tag):
     keep, on = [], False
     for e in events:
         if e["ev"] == "reset":
-            on = not any(x[0] == "change" for x in e.get("strat", []))
+            # ... and runs with more than 16 simultaneously active windows (width / slide): the model state holds every active
+            # window with its content, which makes TLC spend minutes on a handful of such runs (the requirement-based judge
+            # of WindowTrace.tla has no such state and covers them)
+            on = not any(x[0] == "change" for x in e.get("strat", [])) and e["w"] <= 16 * e["s"]
         if on:
             keep.append(e)
     fp = os.path.join(wd, f"{tag}-model.ndjson")
@@ -71,7 +74,7 @@ def run(ctx):
     thorough = ctx.tier == "thorough"
     # L1
     mc = vlib.tlc_mc(FAMILY, "MCWindow.tla", "MC_thorough.cfg" if thorough else "MC_quick.cfg", workers=8)
-    log(f"L1 Window model: {mc['states']} distinct states, violated={mc['violated']}")
+    log(f"[{time.time() - t0:.0f}s] L1 Window model: {mc['states']} distinct states, violated={mc['violated']}")
     if mc["uncovered"]:
         raise vlib.ToolError(f"vacuity: actions never taken in L1: {mc['uncovered']}")
     # L1b: the model without the eviction repair must violate ExactlyOnce (non-vacuity of the invariant)
@@ -81,7 +84,7 @@ def run(ctx):
 
     # L1c: every other strategy list (NonEmptyContent first, Periodic, OnContentChange, without OnWindowClose)
     mcs = vlib.tlc_mc(FAMILY, "MCWindow.tla", "MC_strat_thorough.cfg" if thorough else "MC_strat_quick.cfg", workers=8, tag="c09-strat")
-    log(f"L1 Window model, 8 further strategy lists: {mcs['states']} distinct states, violated={mcs['violated']}")
+    log(f"[{time.time() - t0:.0f}s] L1 Window model, 8 further strategy lists: {mcs['states']} distinct states, violated={mcs['violated']}")
     if mcs["violated"]:
         raise vlib.ToolError(f"Window.tla violates {mcs['violated']} for a non-default strategy list: model and requirement disagree (not a verdict)")
 
@@ -107,16 +110,16 @@ def run(ctx):
     vlib.write_ndjson(os.path.join(wd, "l2cases.ndjson"), cases)
     vlib.kverif(["c09", "--cases", os.path.join(wd, "l2cases.ndjson"), "--out", os.path.join(wd, "l2.ndjson")])
     runs2, failed2, drift2, res2 = validate(ctx, os.path.join(wd, "l2.ndjson"), verdict, "l2")
-    log(f"L2 replayed {len(cases)} TLC behaviours: {len(failed2)} rejected, {len(drift2)} differ from the code-shaped model only")
+    log(f"[{time.time() - t0:.0f}s] L2 replayed {len(cases)} TLC behaviours: {len(failed2)} rejected, {len(drift2)} differ from the code-shaped model only")
 
     # L3: random long streams
     n3 = 6000 if thorough else 600
     vlib.kverif(["c09", "--random", n3, "--seed", ctx.seed, "--maxlen", 80 if thorough else 50, "--out", os.path.join(wd, "l3.ndjson")])
     runs3, failed3, drift3, res3 = validate(ctx, os.path.join(wd, "l3.ndjson"), verdict, "l3")
-    log(f"L3 validated {len(runs3)} recorded runs: {len(failed3)} rejected")
+    log(f"[{time.time() - t0:.0f}s] L3 validated {len(runs3)} recorded runs: {len(failed3)} rejected")
     mdrift3, mruns3, mstates3 = model_validate(wd, os.path.join(wd, "l3.ndjson"), "l3")
     mdrift3 = [r for r in mdrift3 if r not in failed3]
-    log(f"L3 model binding: {mruns3} recorded runs stepped through Window.tla call by call: {len(mdrift3)} leave the model")
+    log(f"[{time.time() - t0:.0f}s] L3 model binding: {mruns3} recorded runs stepped through Window.tla call by call: {len(mdrift3)} leave the model")
 
     if mc["violated"] and not (failed2 or failed3):
         raise vlib.ToolError(f"L1 invariant {mc['violated']} violated in the model but not reproduced on the code: model out of date")
